@@ -778,7 +778,12 @@ impl MutableArchive {
                     .unwrap_or(0)
             });
 
-        let mut attrs = match Attributes::parse(&Bytes::from(attrs_data), block_count) {
+        // The existing file was written for the block count of that time: entries added since then
+        // are not in it, and asking the parser for more entries than it holds makes it fail (which
+        // would throw away every recorded checksum)
+        let recorded_count = recorded_attribute_entries(&attrs_data).map_or(block_count, |n| n.min(block_count));
+
+        let mut attrs = match Attributes::parse(&Bytes::from(attrs_data), recorded_count) {
             Ok(a) => a,
             Err(_) => {
                 // If we can't parse existing attributes, create new ones
@@ -1348,6 +1353,28 @@ impl Drop for MutableArchive {
         // Attempt to flush changes on drop, but ignore errors
         let _ = self.flush();
     }
+}
+
+/// Number of per-file entries an `(attributes)` file of this size holds, from its flags
+/// (`None` when the flags select no per-file array, so the size says nothing)
+fn recorded_attribute_entries(data: &[u8]) -> Option<usize> {
+    if data.len() < 8 {
+        return None;
+    }
+    let flags = AttributeFlags::new(u32::from_le_bytes([data[4], data[5], data[6], data[7]]));
+    let per_entry = if flags.has_crc32() { 4 } else { 0 }
+        + if flags.has_filetime() { 8 } else { 0 }
+        + if flags.has_md5() { 16 } else { 0 };
+    let patch = usize::from(flags.has_patch_bit());
+    if per_entry == 0 && patch == 0 {
+        return None;
+    }
+    let payload = data.len() - 8;
+    let mut n = payload * 8 / (per_entry * 8 + patch);
+    while n > 0 && n * per_entry + patch * n.div_ceil(8) > payload {
+        n -= 1;
+    }
+    Some(n)
 }
 
 #[cfg(test)]
